@@ -641,6 +641,36 @@ def _own_walk(fnode):
     yield from _walk_same_func(st)
 
 
+_QUERY_BUILTINS = {"len", "isinstance", "min", "max", "abs", "round", "int", "float", "str", "bool", "tuple", "list", "set", "frozenset", "dict", "sorted", "reversed", "enumerate",
+                   "zip", "range", "sum", "any", "all", "Fraction", "getattr", "hasattr", "type", "iter", "repr", "format", "ceil", "floor", "divmod"}
+
+
+def _query_only(val) -> bool:
+  """every call inside the expression is a query: a getter / predicate / view by its name, a container or numeric builtin, a method of a
+  string or mapping that returns a value (an approximation by name, as everywhere in this pass)"""
+  for x in ast.walk(val):
+    if isinstance(x, ast.Call):
+      if isinstance(x.func, ast.Name):
+        if x.func.id in _QUERY_BUILTINS or x.func.id.startswith(("_make_", "make_", "is_", "has_", "get_", "_get_", "_is_", "parse_", "to_")):
+          continue
+        return False
+      if isinstance(x.func, ast.Attribute):
+        a = x.func.attr
+        if a.startswith(("get", "is_", "has_", "iter_", "to_", "_get", "_is", "make_", "_make", "parse", "find", "from_seconds", "from_frames", "from_bytes", "from_value")) or a in (
+            "items", "keys", "values", "copy", "lower", "upper", "strip", "lstrip", "rstrip", "split", "join", "startswith", "endswith", "replace", "format", "group", "groups",
+            "match", "fullmatch", "search", "index", "count", "parent", "root", "first_child", "last_child", "next_sibling", "previous_sibling", "dfs_iterator", "name",
+            "validate", "extract", "contains_value", "numerator", "denominator", "isspace", "isdigit", "encode", "decode", "union", "intersection", "difference", "zfill", "bit_length"):
+          continue
+        return False
+      return False
+  return True
+
+
+_EFFECT_METHODS = {"pop", "popitem", "popleft", "read", "readline", "readlines", "recv", "send", "write", "append", "extend", "insert", "remove", "add", "discard",
+                   "update", "setdefault", "clear", "sort", "reverse", "push_child", "push_children", "remove_child", "remove_children", "set_style", "set_region",
+                   "put_region", "remove_region", "__next__", "get_nowait", "close", "feed"}
+
+
 def inline_new_locals(q, fn, base_locals, log, name):
   known = set(base_locals)
   params = {a.arg for a in fn.args.posonlyargs + fn.args.args + fn.args.kwonlyargs}
@@ -665,10 +695,21 @@ def inline_new_locals(q, fn, base_locals, log, name):
       continue
     if any(isinstance(x, ast.ListComp) for x in ast.walk(val)) and sum(1 for n in _own_walk(fn) if isinstance(n, ast.Name) and n.id == v and isinstance(n.ctx, ast.Load)) != 1:
       continue
+    # a value taken by an operation with an effect (pop from a stack, next item of an iterator, a read) is taken once
+    if any(isinstance(x, ast.Call) and ((isinstance(x.func, ast.Attribute) and x.func.attr in _EFFECT_METHODS) or (isinstance(x.func, ast.Name) and x.func.id in ("next", "input")))
+           for x in ast.walk(val)):
+      continue
     # the statement must sit directly in a statement list (not under a condition that may be skipped: accepted, approximation)
     uses = [n for n in _own_walk(fn) if isinstance(n, ast.Name) and n.id == v and isinstance(n.ctx, ast.Load)]
     if not uses or any((u.lineno, u.col_offset) < (st.lineno, st.col_offset) for u in uses if hasattr(u, "lineno")):
       continue
+    # a value produced by a call that is not a plain query (a reader / writer / filter run, a constructor) keeps its place in the
+    # order of effects: it is moved only into the simple statement that follows it directly
+    if not _query_only(val):
+      hold0 = _holder(st)
+      nxt = hold0[0][hold0[1] + 1] if hold0 is not None and hold0[1] + 1 < len(hold0[0]) else None
+      if len(uses) != 1 or nxt is None or not isinstance(nxt, (ast.Assign, ast.AnnAssign, ast.AugAssign, ast.Expr, ast.Return)) or not any(x is uses[0] for x in ast.walk(nxt)):
+        continue
     bad = False
     if len(uses) > 1 and any(isinstance(x, ast.Call) and isinstance(x.func, ast.Name) and x.func.id in ("round", "int", "floor", "ceil", "float", "Fraction", "sorted", "list", "tuple", "set", "dict")
                              for x in ast.walk(val)):
